@@ -51,7 +51,7 @@ func oracle14(m *mon.M, v *v14, msg []byte, i int64) (want []byte, ok bool) {
 func TestC14(t *testing.T) {
 	m := mon.New(t, "C14")
 	defer m.Done()
-	m.Rule("case = one Write/Sum/Reset history on md4 (even index) or ripemd160 (odd index): message length from the index-scheduled class list {0,1,k·64+{55,56,57,63,64,65} (k=0..3),1999,2000, 8×random 0..2000}; written in random chunkings (single, first chunk at 63/64/65, 1..3-byte chunks, with empty writes, random cuts); a Sum is forced mid-stream at a random cut (its digest is compared with the oracles for that prefix) and more Sums at random; every 4th sweep writes garbage, Sums, Resets first; final Sum is taken twice (random prefix / spare capacity). Oracle = executable RFC 1320 / RIPEMD-160 spec (h/ref/md4rmd) which must agree with libgcrypt and nettle on the same message (else inconclusive); python hashlib ripemd160 on every 16th case. One message of 2^29+3 bytes per hash (bit length crosses 2^32) is compared against libgcrypt+nettle. distinct = (hash, length class, chunk style, ops)")
+	m.Rule("case = one Write/Sum/Reset history on md4 (even index) or ripemd160 (odd index): message length from the index-scheduled class list {0,1,k·64+{55,56,57,63,64,65} (k=0..3),1999,2000, 8×random 0..2000}; written in random chunkings (single, first chunk at 63/64/65, 1..3-byte chunks, with empty writes, random cuts); a Sum is forced mid-stream at a random cut (its digest is compared with the oracles for that prefix) and more Sums at random; every 4th sweep writes garbage, Sums, Resets first; final Sum is taken twice (random prefix / spare capacity). Buffer ownership: every Write goes through one reused buffer overwritten after the call (and must come back unmodified), the last 8 slices returned by Sum are re-compared with snapshots after every later operation of any instance, Sum(b) gets guarded prefixes (no/short/enough spare capacity). Oracle = executable RFC 1320 / RIPEMD-160 spec (h/ref/md4rmd) which must agree with libgcrypt and nettle on the same message (else inconclusive); python hashlib ripemd160 on every 16th case. One message of 2^29+3 bytes per hash (bit length crosses 2^32) is compared against libgcrypt+nettle. distinct = (hash, length class, chunk style, ops)")
 	m.Assume("h/ref/md4rmd passes the RFC 1320 test suite and the RIPEMD-160 paper's test values (incl. 10^6×'a') in its own unit test and is cross-checked against libgcrypt 1.10 and nettle 3.8 on every comparison; Go runtime panic reporting")
 	py, err := ext.StartPy()
 	if err != nil {
@@ -80,6 +80,8 @@ func TestC14(t *testing.T) {
 		lcs = append(lcs, lc{"rand", -1})
 	}
 	total := m.N(4000, 200000)
+	wbuf := make([]byte, 4096) // the ONE reused buffer every Write goes through
+	rg := &ring{}              // slices returned by Sum, re-verified after every later call of any instance
 	m.Cases("hist", total, func(i int64, r *rand.Rand) {
 		v := vs[i%2]
 		blk := i / 2
@@ -108,15 +110,32 @@ func TestC14(t *testing.T) {
 			m.Violation(key, w)
 		}
 		dead := false
+		recheck := func(after string) {
+			bad, n := rg.verify()
+			m.Count("retained_slice_rechecks", n)
+			if bad != nil {
+				fail("returned-slice-changed-later:"+bad.src, map[string]any{"after_op": after, "was": mon.Hex(bad.snap), "now": mon.Hex(bad.buf)})
+			}
+		}
 		write := func(p []byte) {
 			if dead {
 				return
 			}
 			var wn int
 			var werr error
-			pv, _ := mon.Panics(func() { wn, werr = h.Write(p) })
+			arg := wbuf[:len(p):len(p)]
+			copy(arg, p)
+			pv, _ := mon.Panics(func() { wn, werr = h.Write(arg) })
 			m.Eval()
 			log = append(log, op08{Op: "write", Data: mon.FullHex(p), Res: panicRes(pv)})
+			m.Count("writes_via_scribbled_buffer", 1)
+			if !bytes.Equal(arg, p) {
+				fail("write-modifies-input:"+v.name, map[string]any{"after": mon.Hex(arg)})
+				dead = true
+				return
+			}
+			scribble(arg, 0xA5) // Write must not retain p
+			recheck("write")
 			if pv != nil {
 				fail("unexpected-panic:write:"+v.name, map[string]any{"panic": fmt.Sprint(pv)})
 				dead = true
@@ -133,18 +152,22 @@ func TestC14(t *testing.T) {
 			if dead {
 				return
 			}
-			var prefix []byte
-			switch r.IntN(4) {
-			case 1:
-				prefix = mon.Bytes(r, 1+r.IntN(8))
-			case 2:
-				prefix = append(make([]byte, 0, 100), mon.Bytes(r, r.IntN(5))...)
-			}
+			prefix, guard, pclass := sumPrefix(r, v.size)
 			pfx := append([]byte{}, prefix...)
 			var got []byte
 			pv, _ := mon.Panics(func() { got = h.Sum(prefix) })
 			m.Eval()
-			log = append(log, op08{Op: "sum", Data: mon.FullHex(pfx), Res: panicRes(pv)})
+			log = append(log, op08{Op: "sum", Data: mon.FullHex(pfx), Res: panicRes(pv) + " " + pclass})
+			if guard != nil && (!guard.intact() || !bytes.Equal(guard.back[guard.lo:guard.lo+len(pfx)], pfx)) {
+				fail("sum-writes-outside-append-region:"+v.name, map[string]any{"class": pclass, "backing": mon.Hex(guard.back), "prefix": mon.Hex(pfx)})
+				dead = true
+				return
+			}
+			if pv == nil {
+				m.Count(pclass, 1)
+				rg.keep(got, v.name+":sum")
+			}
+			recheck("sum")
 			if pv != nil {
 				fail("unexpected-panic:sum:"+v.name, map[string]any{"panic": fmt.Sprint(pv), "written_len": len(written)})
 				dead = true
@@ -272,6 +295,11 @@ func TestC14(t *testing.T) {
 	m.Gate("sum_mid_stream", m.N(3000, 150000), "Sum taken with more data written afterwards")
 	m.Gate("sum_at_padding_boundary", m.N(3000, 150000), "Sum with len%64 ∈ {55,56,57,63,0}")
 	m.Gate("resets", m.N(500, 25000), "Reset after use")
+	m.Gate("writes_via_scribbled_buffer", m.N(10000, 500000), "Writes fed through one reused buffer that is overwritten right after the call")
+	m.Gate("retained_slice_rechecks", m.N(100000, 5000000), "earlier Sum results re-compared with their snapshots after later calls (same hash, other hash, other instances)")
+	m.Gate("sum_prefix_no_spare", m.N(1500, 75000), "Sum(b) with non-empty b and no spare capacity, guard bytes around the backing array")
+	m.Gate("sum_prefix_spare_fits", m.N(1500, 75000), "Sum(b) with spare capacity for the whole digest")
+	m.Gate("sum_prefix_spare_short", m.N(1500, 75000), "Sum(b) with spare capacity smaller than the digest")
 	m.Gate("sum_comparisons", m.N(10000, 500000), "digests compared with three agreeing oracles")
 	m.Gate("bit_length_crosses_2^32", 2, "one 2^29+3-byte message per hash")
 }
